@@ -354,6 +354,7 @@ const slowRun = 8 * time.Second
 
 func runRun(m map[string]string) string {
 	t0 := time.Now()
+	giveUps0 := stallGiveUps.Load()
 	obs := runRun1(m)
 	// a timeout (errno 110) where nothing was scripted to be silent: the loaded machine did not get to accept / answer
 	// within the dial or header timeout
@@ -370,8 +371,9 @@ func runRun(m map[string]string) string {
 	}
 	// dflt=1: nothing but the library DEFAULT of tls-handshake-timeout (1 s) ends the scripted stall; a run that needs
 	// more than 5 s was not ended by it (the target itself gives up after 8 s)
-	if d := time.Since(t0); m["dflt"] == "1" && d > 5*time.Second && !strings.HasPrefix(obs, "res=panic") {
-		return fmt.Sprintf("res=hang n=0 s= (the default tls-handshake-timeout did not end a stalled handshake: the run took %d s)", int(d.Seconds()))
+	// (decided by the TARGET, not by the clock of a loaded machine: it had to end the stall itself)
+	if d := time.Since(t0); m["dflt"] == "1" && stallGiveUps.Load() > giveUps0 && !strings.HasPrefix(obs, "res=panic") {
+		return fmt.Sprintf("res=hang n=0 s= (the default tls-handshake-timeout did not end a stalled handshake: the target gave up after 8 s, the run took %d s)", int(d.Seconds()))
 	}
 	if d := time.Since(t0); d > slowRun && !strings.HasPrefix(obs, "res=hang") && !strings.HasPrefix(obs, "res=panic") {
 		return fmt.Sprintf("INCONCLUSIVE machine too busy: the run took %d s", int(d.Seconds()))
